@@ -43,6 +43,8 @@ def run(ctx):
         ctx.need_module(m)
         one_module(ctx, m, nb)
     frames.run_frames_state_only(ctx, "D1/T9-frames", [m + ":_compute_state_new" for (m, _) in MODS])
+    from . import units
+    units.run(ctx, "D3/T8-dimensional-homogeneity", {m for (m, _) in MODS}, min_scenarios=4)
     ctx.trust("det expm(A) = exp(tr A); dev(A):dev(A) is a sum of squares")
     ctx.assume("moduli, relaxation times and dt are positive")
 
@@ -298,6 +300,9 @@ def variants(repo):
     V = "optimism/material/HyperViscoelastic.py"
     MB = "optimism/material/MultiBranchHyperViscoelastic.py"
     return [
+        Variant("dissipation not multiplied by dt", V, sub_in_func("_energy_density", "    return W_eq + W_neq + dt * Psi", "    return W_eq + W_neq + Psi"), "D3/T8-dimensional-homogeneity"),
+        Variant("viscosity without relaxation time", V, sub_in_func("_dissipation_potential", "    eta   = G_neq * tau", "    eta   = G_neq"), "D3/T8-dimensional-homogeneity"),
+        Variant("rate divided by dt twice", V, sub_in_func("_energy_density", "    Dv = delta_Ev / dt", "    Dv = delta_Ev / dt / dt"), "D3/T8-dimensional-homogeneity"),
         Variant("increment not deviatoric", V, sub_in_func("_compute_state_increment", "    Ee_dev = TensorMath.dev(elasticStrain)", "    Ee_dev = elasticStrain"), "D1/T9-traceless-increment"),
         Variant("factor 1/(1+tau/dt)", V, sub_in_func("_compute_state_increment", "integration_factor = 1. / (1. + dt / tau)", "integration_factor = 1. / (1. + tau / dt)"), "D3/T7-update-factor"),
         Variant("dissipation with minus sign", V, sub_in_func("_dissipation_potential", "    return eta * TensorMath.norm_of_deviator_squared(Dv)", "    return -eta * TensorMath.norm_of_deviator_squared(Dv)"), "D2/T8-dissipation-nonnegative"),
